@@ -82,8 +82,9 @@ def replay(rec, ctx):
     if opn == "notify":
         if last_order != [list(x) for x in rec["order"]]:
             bad("callbacks-run-differ", f"ran {last_order}, spec (live registered, registration order) {rec['order']}")
-        if len(n._callbacks_refs) != len(want_present):
-            bad("dead-references-kept", f"{len(n._callbacks_refs)} references held after notify, {len(want_present)} live callbacks")
+        held = getattr(n, "_callbacks_refs", None)       # an implementation detail: looked at only where it exists
+        if held is not None and len(held) != len(want_present):
+            bad("dead-references-kept", f"{len(held)} references held after notify, {len(want_present)} live callbacks")
     want_counts = {json.dumps(list(cb)): k for cb, k in rec["calls"]}
     if counts != want_counts:
         bad("run-counts-differ", f"{counts} vs spec {want_counts}")
